@@ -324,10 +324,50 @@ def uf_table():
     return dict(_uf)
 
 
+def value_set(b, limit=16, max_vars=12):
+    """the values a small symbolic vector can take, with their conditions: [(value, cond)] or None"""
+    sup = set()
+    for x in b:
+        M.support(x, sup, set())
+    sup = sorted(sup)
+    if len(sup) > max_vars:
+        return None
+    vals = {}
+    for m in range(1 << len(sup)):
+        env = {r: (m >> i) & 1 for i, r in enumerate(sup)}
+        v = 0
+        for i, x in enumerate(b):
+            if M.eval(x, env):
+                v |= 1 << i
+        if v not in vals:
+            if len(vals) >= limit:
+                return None
+            vals[v] = eq(b, const(v, len(b)))
+    return sorted(vals.items())
+
+
+def _expand(op, a, b):
+    vs = value_set(b)
+    if vs is None:
+        return None
+    w = len(a)
+    res = const(0, w)
+    for v, c in vs:
+        if v == 0:
+            continue
+        r = op(a, const(v, len(b)))
+        res = tuple(M.OR(x, M.AND(c, y)) for x, y in zip(res, r))
+    return res
+
+
 def udiv(a, b):
     """unsigned division; constant divisor power of two handled exactly"""
     bi = to_int(b)
     w = len(a)
+    if bi is None:
+        r = _expand(udiv, a, b)
+        if r is not None:
+            return r
     if bi is not None and bi > 0 and (bi & (bi - 1)) == 0:
         return lshr_const(a, bi.bit_length() - 1)
     ai = to_int(a)
@@ -342,6 +382,10 @@ def udiv(a, b):
 def urem(a, b):
     bi = to_int(b)
     w = len(a)
+    if bi is None:
+        r = _expand(urem, a, b)
+        if r is not None:
+            return r
     if bi is not None and bi > 0 and (bi & (bi - 1)) == 0:
         k = bi.bit_length() - 1
         return a[:k] + (0,) * (w - k)
